@@ -12,8 +12,8 @@ This file is also the shared KV oracle of C07–C10/C14:
   range iterator: position `soi | eoi | on i` over the entries of `[start, limit)`,
   `First/Last/Seek/Next/Prev` of the underlying iterator, `itBase.checkKey`,
   `Rewind/Seek/Next/Valid` of the wrapper;
-* `BIter` mirrors `goBadgerDBIt`: badger's iterator runs over the *whole* database, the only
-  range restriction is `itBase.checkKey` (inclusive end) — as the code is written.
+* `BIter` mirrors `goBadgerDBIt`: badger's iterator runs over the *whole* database; the wrapper
+  clamps seek targets into `[start, end)` and `Valid` rejects keys outside it (exclusive end).
 -/
 namespace C06
 
@@ -258,20 +258,16 @@ def optBytes : Option Bytes → Bytes
   | some b => b
   | none => []
 
-/-- `GoBadgerDB.Iterator`: position by `Seek(end)` / `Seek(start)`. -/
-def BIter.mk' (m : Map) (start : Bytes) (end_ : Option Bytes) (reverse : Bool) : BIter :=
-  let e := effEnd start end_
-  let it : BIter := { all := m, start := start, end_ := e, reverse := reverse, pos := none }
-  if reverse then it.bSeek (optBytes e) else it.bSeek start
-
 def BIter.cur (it : BIter) : Option Entry :=
   match it.pos with
   | some i => it.all[i]?
   | none => none
 
+/-- `goBadgerDBIt.Valid`: underlying valid, `checkKey`, and the key strictly below the
+(exclusive) end bound. -/
 def BIter.valid (it : BIter) : Bool :=
   match it.cur with
-  | some e => checkKey it.start it.end_ e.1
+  | some e => checkKey it.start it.end_ e.1 && belowUpper it.end_ e.1
   | none => false
 
 def BIter.key (it : BIter) : Bytes :=
@@ -284,40 +280,57 @@ def BIter.value (it : BIter) : Bytes :=
   | some e => e.2
   | none => []
 
+/-- `badger.Iterator.Next` on a positioned iterator: one step in iteration direction. -/
+def BIter.uNext (it : BIter) : BIter :=
+  match it.pos with
+  | none => it
+  | some i =>
+    if it.reverse then
+      { it with pos := match i with
+                       | 0 => none
+                       | j + 1 => some j }
+    else { it with pos := if i + 1 < it.all.length then some (i + 1) else none }
+
+/-- `seekLast`: `Seek(end)`, then step over an item equal to the (exclusive) end bound. -/
+def BIter.seekLast (it : BIter) : BIter :=
+  let it1 := it.bSeek (optBytes it.end_)
+  match it.end_, it1.cur with
+  | some e, some c => if c.1 = e then it1.uNext else it1
+  | _, _ => it1
+
 /-- `goBadgerDBIt.Rewind`. -/
 def BIter.rewind (it : BIter) : BIter × Bool :=
-  let it' := if it.reverse then it.bSeek (optBytes it.end_) else it.bSeek it.start
+  let it' := if it.reverse then it.seekLast else it.bSeek it.start
   (it', it'.valid)
 
-/-- `goBadgerDBIt.Seek`. -/
+/-- `GoBadgerDB.Iterator`: the constructor ends with `Rewind()` — a fresh badger iterator is
+already positioned (unlike `goLevelDBIt`, which starts before the first entry). -/
+def BIter.mk' (m : Map) (start : Bytes) (end_ : Option Bytes) (reverse : Bool) : BIter :=
+  let it : BIter := { all := m, start := start, end_ := effEnd start end_, reverse := reverse, pos := none }
+  it.rewind.1
+
+/-- `goBadgerDBIt.Seek`: the target is clamped into `[start, end)`. -/
 def BIter.seek (it : BIter) (k : Bytes) : BIter × Bool :=
-  let it' := it.bSeek k
+  let it' :=
+    if it.reverse then
+      match it.end_ with
+      | some e => if ble e k then it.seekLast else it.bSeek k
+      | none => it.bSeek k
+    else if blt k it.start then it.bSeek it.start else it.bSeek k
   (it', it'.valid)
 
-/-- `goBadgerDBIt.Next`; `none` = Go panic (`badger.Iterator.Next` dereferences the nil item
-of an exhausted iterator). -/
-def BIter.next (it : BIter) : Option (BIter × Bool) :=
+/-- `goBadgerDBIt.Next`: false on an exhausted iterator. -/
+def BIter.next (it : BIter) : BIter × Bool :=
   match it.pos with
-  | none => none
-  | some i =>
-    let it' : BIter :=
-      if it.reverse then
-        { it with pos := match i with
-                         | 0 => none
-                         | j + 1 => some j }
-      else { it with pos := if i + 1 < it.all.length then some (i + 1) else none }
-    some (it', it'.valid)
+  | none => (it, false)
+  | some _ =>
+    let it' := it.uNext
+    (it', it'.valid)
 
-/-- the entries visited by `for ; it.Valid(); it.Next()` on a badger iterator
-(`Next` is only called while valid, so it cannot panic here). -/
+/-- the entries visited by `for ; it.Valid(); it.Next()` on a badger iterator. -/
 def BIter.drain : Nat → BIter → List Entry
   | 0, _ => []
-  | fuel + 1, it =>
-    if it.valid then
-      match it.next with
-      | some r => (it.key, it.value) :: BIter.drain fuel r.1
-      | none => [(it.key, it.value)]
-    else []
+  | fuel + 1, it => if it.valid then (it.key, it.value) :: BIter.drain fuel it.next.1 else []
 
 def BIter.scan (it : BIter) : List Entry := BIter.drain (it.all.length + 1) it.rewind.1
 
